@@ -121,6 +121,14 @@ func (fr *Frame) call(n *vnode, instr *ssa.Call, c *ssa.CallCommon) *Val {
 		x.vc.Assume(Implies(n.reach, Neq(recv.T, IntLit(0))))
 	}
 	var free []*Val
+	if callee != nil && !c.IsInvoke() && len(callee.FreeVars) > 0 {
+		// direct call of a closure value: the bindings come from the MakeClosure
+		if fv := fr.val(c.Value, n); fv.Fn != nil && fv.Fn.Fn == callee {
+			free = fv.Fn.Bindings
+		} else {
+			callee, con = nil, nil
+		}
+	}
 	if callee == nil && !c.IsInvoke() {
 		// closure / function value
 		fv := fr.val(c.Value, n)
@@ -132,6 +140,7 @@ func (fr *Frame) call(n *vnode, instr *ssa.Call, c *ssa.CallCommon) *Val {
 			}
 		}
 	}
+	fr.callAsserts(n, instr, callee, c, args)
 	if con != nil {
 		if con.Kind == "assume" {
 			// an assumed library contract written for particular argument types (e.g. slices.SortFunc on
@@ -155,6 +164,10 @@ func (fr *Frame) call(n *vnode, instr *ssa.Call, c *ssa.CallCommon) *Val {
 	}
 	if x.isPureExternal(c) {
 		x.eng.Note("call to " + what + ": result arbitrary, assumed not to panic and to modify nothing")
+		return x.callResult(n, what, resT)
+	}
+	if x.unknownPure {
+		x.eng.Note("call to " + what + ": no contract; by the contract's option unknown-calls-pure the result is arbitrary and the heap is assumed unchanged")
 		return x.callResult(n, what, resT)
 	}
 	x.eng.Note("call to " + what + ": no contract; result arbitrary, whole mutable heap havocked, assumed not to panic")
@@ -368,6 +381,8 @@ func (fr *Frame) applyContract(n *vnode, instr *ssa.Call, con *Contract, callee 
 	var tpkg *types.Package
 	if callee != nil && callee.Pkg != nil {
 		tpkg = callee.Pkg.Pkg
+	} else if callee != nil && callee.Origin() != nil && callee.Origin().Pkg != nil {
+		tpkg = callee.Origin().Pkg.Pkg
 	} else if pkg != nil {
 		tpkg = pkg.Pkg
 	}
@@ -499,8 +514,8 @@ func (fr *Frame) tryApplyAssumed(n *vnode, instr *ssa.Call, con *Contract, calle
 	// evaluate all clauses once on a scratch copy of the state to see whether they type-check here
 	defer func() {
 		if r := recover(); r != nil {
-			if _, isStale := r.(staleErr); isStale {
-				fr.x.eng.Note("assumed contract " + con.Key + " does not apply to the argument types at a call in " + fr.fn.String() + ": treated as an unknown call")
+			if se, isStale := r.(staleErr); isStale {
+				fr.x.eng.Note("assumed contract " + con.Key + " does not apply to the argument types at a call in " + fr.fn.String() + " (" + se.msg + "): treated as an unknown call")
 				v, ok = nil, false
 				return
 			}
@@ -942,4 +957,67 @@ func (fr *Frame) builtinAppend(n *vnode, instr *ssa.Call, c *ssa.CallCommon) *Va
 	}
 	n.heap[comp] = x.nameBig(Store(cur, resArr, row), comp)
 	return &Val{T: res, Ty: instr.Type()}
+}
+
+// callAsserts: cut-point assertions of the function under contract attached to this call site.
+func (fr *Frame) callAsserts(n *vnode, instr *ssa.Call, callee *ssa.Function, c *ssa.CallCommon, args []*Val) {
+	x := fr.x
+	if fr != x.topFrame || fr.contract == nil || len(fr.contract.Asserts) == 0 {
+		return
+	}
+	name := ""
+	if callee != nil {
+		name = callee.String()
+	} else if c.IsInvoke() {
+		name = c.Method.FullName()
+	}
+	if name == "" {
+		return
+	}
+	for ai, as := range fr.contract.Asserts {
+		short := strings.TrimSuffix(name, "[int64]")
+		if !(strings.HasSuffix(name, as.Callee) || strings.HasSuffix(short, as.Callee)) {
+			continue
+		}
+		key := fmt.Sprintf("assert-site.%d", ai)
+		ord := x.callSeqAt(key, instr)
+		if as.Ord >= 0 && as.Ord != ord {
+			continue
+		}
+		save := fr.extraNames
+		en := map[string]*Val{}
+		for k, v := range save {
+			en[k] = v
+		}
+		for i, a := range args {
+			en[fmt.Sprintf("arg%d", i)] = a
+		}
+		fr.extraNames = en
+		env := fr.specEnv(n, n.heap)
+		t := env.evalBool(as.C.E)
+		fr.extraNames = save
+		cn := as.Callee
+		if i := strings.LastIndex(cn, "/"); i >= 0 {
+			cn = cn[i+1:]
+		}
+		x.vc.Oblige("assert", fmt.Sprintf("assert.%s.%d#%d", cn, ai, ord), n.reach, t, x.pos(instr.Pos()), as.C.Text)
+		x.vc.Assume(Implies(n.reach, t))
+	}
+}
+
+// callSeqAt numbers the call sites of one key in source order of first execution (stable per instruction).
+func (x *Exec) callSeqAt(key string, instr ssa.Instruction) int {
+	if x.siteOrd == nil {
+		x.siteOrd = map[string]map[ssa.Instruction]int{}
+	}
+	m := x.siteOrd[key]
+	if m == nil {
+		m = map[ssa.Instruction]int{}
+		x.siteOrd[key] = m
+	}
+	if o, ok := m[instr]; ok {
+		return o
+	}
+	m[instr] = len(m)
+	return m[instr]
 }
